@@ -225,6 +225,38 @@ def fam_perimeter_core(ctx, rng):
                 ctx.violation(kind + ':quad_outside', 'perimeter polygon %d lies outside the region' % (k - 1), desc); return
 
 
+def fam_perimeter_core_deep(ctx, rng):
+    """two holes close to each other, distance between half their gap and the whole gap (deeper than the documented shallow range):
+    the routine may refuse (None: too deep); whatever it returns instead must still be a partition - no two perimeter quads overlap"""
+    R = 10.0
+    loop = G.convex_polygon(rng, n=rng.randint(4, 8), R=R)
+    if loop is None:
+        return
+    holes = G.holes_in(rng, loop, 2)
+    if len(holes) != 2:
+        return
+    f = fl(loop); h0, h1 = fl(holes[0]), fl(holes[1])
+    gap = math.sqrt(float(min([X.sqdist_to_boundary(h1, p) for p in h0] + [X.sqdist_to_boundary(h0, p) for p in h1])))
+    wall = math.sqrt(float(min(X.sqdist_to_boundary(f, p) for p in h0 + h1)))
+    if gap < 0.05 or gap > wall:
+        return
+    d = rng.uniform(0.55, 0.95) * gap
+    if rng.random() < 0.5: holes = [h[::-1] for h in holes]
+    if rng.random() < 0.5: holes = holes[::-1]
+    desc = {'polygon': loop, 'holes': holes, 'distance': d, 'hole_gap': gap}
+    kind = 'perimeter_core:deep'
+    try:
+        per, core_ = Polygon2D.perimeter_core_by_offset(Polygon2D([P2(p) for p in loop]), d, [Polygon2D([P2(p) for p in h]) for h in holes])
+    except Exception as e:
+        ctx.violation(kind + ':raises', '%r' % (e,), desc); return
+    ctx.count('perimeter_core.deep', key=(len(loop), per is None), sample=dict(desc, refused=per is None), nontrivial=True)
+    if per is None:
+        return
+    quads = [[(v.x, v.y) for v in p_.vertices] for p_ in per]
+    if not tri_overlap_free(quads):
+        ctx.violation(kind + ':quads_overlap', 'distance %r with holes %r apart was accepted, but perimeter polygons overlap one another' % (d, gap), desc)
+
+
 # ------------------------------------------------------------------ sub faces
 def tri_overlap_free(polys):
     """pairwise: no vertex of one strictly inside another, no proper edge crossing (exact)"""
@@ -423,7 +455,7 @@ def fam_sub_rects(ctx, rng):
                     ctx.violation(kind + ':size', 'sub-rectangle is %r x %r, requested %r x %r' % (w, h, srw, srh), desc); return
 
 
-FAMILIES = [(fam_offset, 120), (fam_offset_open, 60), (fam_perimeter_core, 80), (fam_sub_faces, 120), (fam_sub_rects, 120)]
+FAMILIES = [(fam_offset, 120), (fam_offset_open, 60), (fam_perimeter_core, 80), (fam_perimeter_core_deep, 120), (fam_sub_faces, 120), (fam_sub_rects, 120)]
 
 
 def explore(ctx):
